@@ -3,10 +3,13 @@
    scalar values; [write_string_literal] is what every printer writes for a text value, an attribute
    name or a text key; [text_token] is the tokenizer (identifier or string literal with its escape
    automaton).
-   Covered by oracles on the real code only (partial): records, numbers, blobs, the three printers'
+   Integer literals (Model/ReconNum.v): the decimal form every printer writes for an integer value of any kind and
+   size, and the tokenizer's integer branches (decimal, 0x, 0b, the kind chosen for the magnitude).
+   Covered by oracles on the real code only (partial): records, floats, blobs, the three printers'
    layouts, the incremental decoder against the one-shot parser for every cut, typed values, malformed
    inputs.  Known findings C09-F1..F3 (shapes of records whose printed form does not read back). *)
 From SwimV Require Import Model.ReconText Proofs.ReconTextProofs.
+From SwimV Require Import Model.ReconNum Proofs.ReconNumProofs.
 Open Scope N_scope.
 
 (* any text at all - controls, quotes, backslashes, any scalar value, the words true and false, the
@@ -30,6 +33,36 @@ Theorem C09_surrogate_escape_rejected : text_token [34; 92; 117; 100; 56; 48; 48
 Proof. exact surrogate_escape_rejected. Qed.
 
 (* non-vacuity *)
+(* every integer - of any size, of any of the integer kinds of a value - written in decimal and followed by
+   anything that cannot continue a number is read back as that integer, the rest of the input untouched *)
+Theorem C09_printed_integer_reads_back : forall z rest, follow_ok rest ->
+  exists v, num_token (print_int z ++ rest) = (NLit v, rest) /\ nz v = z.
+Proof. exact printed_integer_reads_back. Qed.
+
+Theorem C09_printed_integer_is_an_integer_text : forall z, exists v, int_of_text (print_int z) = Some v /\ nz v = z.
+Proof. exact printed_integer_is_an_integer_text. Qed.
+
+(* the kind of value a literal is read as depends on its number alone (so reading a printed value twice gives
+   the same value: the second cycle is a fixed point) *)
+Theorem C09_literal_kind_by_number : forall neg n,
+  let v := classify neg n in
+  let z := nz v in
+  value_kind v =
+    if ((- 2147483648 <=? z) && (z <=? 2147483647))%Z then VI32
+    else if ((- 9223372036854775807 <=? z) && (z <=? 9223372036854775807))%Z then VI64
+    else if ((0 <=? z) && (z <=? 18446744073709551615))%Z then VU64
+    else if (z <? 0)%Z then VBigInt else VBigUint.
+Proof. exact literal_kind_by_number. Qed.
+
+Example C09_integer_nonvacuous :
+  print_int (-120) = [45; 49; 50; 48] /\
+  int_of_text [48; 120; 70; 102] = Some {| nk := KUInt; nz := 255 |} /\
+  int_of_text [45; 48; 98; 49; 48; 49] = Some {| nk := KInt; nz := -5 |} /\
+  int_of_text [49; 46; 53] = None /\
+  value_kind (classify true 9223372036854775808) = VBigInt /\
+  nv_eq {| nk := KInt; nz := 5 |} {| nk := KBigUint; nz := 5 |} = true.
+Proof. exact integer_witness. Qed.
+
 Example C09_nonvacuous :
   write_string_literal [97; 34; 10; 1; 92] = [34; 97; 92; 34; 92; 110; 92; 117; 48; 48; 48; 49; 92; 92; 34] /\
   write_string_literal [116; 114; 117; 101] = [34; 116; 114; 117; 101; 34] /\
